@@ -8,7 +8,8 @@ EXPLANATION = (
     "Decides the unwinding discipline of C09 per call site (hence for every poll index at once), not the legality of "
     "later searches: (ERR) at each of the recursive search call sites the Err edge reaches a return of Err (or, in "
     "iterative deepening, the loop exit) without passing any table insert, PV push, killer/counter-move/history "
-    "update, make_move, move-picker step or report; (POLL) every recursive search function polls should_stop before "
+    "update, make_move, move-picker step or report; (UNDO) all recursive sites agree on whether the move is taken back before an abort is "
+    "propagated (today: never - the search runs on a clone); (POLL) every recursive search function polls should_stop before "
     "any make_move or recursive call and returns Err on its true edge, and should_start_new_search returns true for "
     "depth 1 before reading the stop flag or the clock, and is consulted before every aspiration search; (IMM) "
     "search::search takes `&Game`, Game has no interior mutability, no body in the cone casts that reference to a "
@@ -22,6 +23,7 @@ FORBIDDEN = ("TranspositionTable::insert", "PrincipalVariation::push", "Principa
 
 def run(fx, rep, tier):
     rule_err(fx, rep)
+    rule_undo_discipline(fx, rep)
     rule_poll(fx, rep)
     rule_imm(fx, rep)
     rule_fallback(fx, rep)
@@ -75,6 +77,41 @@ def rule_err(fx, rep):
             ok = False
             rep.violation("C09-ERR", key + f"/{ordinal(sites, b, cb, bb)}", f"`{b.name}` line {t.get('line')}: {why}", {"fn": b.name, "file": b.file, "line": t.get("line")})
     rep.rule("C09-ERR", n, 8, ok, "Err-edge discipline at the recursive search call sites")
+
+
+def rule_undo_discipline(fx, rep):
+    """All recursive call sites follow the same discipline about the position on abort: the search runs on a clone
+    and an aborted search leaves its made moves in place (no undo on the way out). A site that takes its move back
+    before propagating the abort, while the levels below it did not, pops History entries that are not its own."""
+    sites = sh.recursive_sites(fx)
+    n = 0
+    ok = True
+    undoing, plain = [], []
+    for (b, bb, t, cb) in sites:
+        rs = sh.result_switch(b, bb, t)
+        if rs is None or rs[0] == "tail":
+            continue
+        sw, ok_t, err_t, between = rs
+        n += 1
+        region = b.reachable(err_t, removed_blocks=[sw]) if err_t is not None else set()
+        undo_on_err = [c for c in between if c[0].endswith("Game::undo_move") or c[0].endswith("Game::undo_null_move")]
+        for x in sorted(region):
+            tt = b.blocks[x]["term"]
+            if tt["k"] == "call" and (norm(callee_name(tt) or "").endswith("Game::undo_move") or norm(callee_name(tt) or "").endswith("Game::undo_null_move")):
+                undo_on_err.append((norm(callee_name(tt)), tt.get("line")))
+        (undoing if undo_on_err else plain).append((b, t, undo_on_err))
+    good = not (undoing and plain)
+    rep.obligation(good, max(1, n))
+    rep.sample({"rule": "C09-UNDO", "sites": n, "undo_before_propagating": len(undoing), "propagate_without_undo": len(plain)})
+    if not good:
+        minority = undoing if len(undoing) <= len(plain) else plain
+        for (b, t, u) in minority:
+            ok = False
+            rep.violation("C09-UNDO", f"C09-UNDO/{norm(b.name)}/{'undo' if u else 'no-undo'}",
+                          f"`{b.name}` line {t.get('line')} {'takes the move back (' + str(u[:1]) + ') before' if u else 'does not take the move back before'} propagating an aborted child search, "
+                          f"while {len(plain) if u else len(undoing)} other recursive call site(s) do the opposite: an abort then pops or leaves History entries that belong to another level "
+                          "(undo_null_move asserts on a real-move entry; undo_move on a null entry)", {"fn": b.name, "file": b.file, "line": t.get("line")})
+    rep.rule("C09-UNDO", n, 6, ok, "all recursive sites agree on undo-before-propagate")
 
 
 def ordinal(sites, b, cb, bb):
@@ -303,6 +340,9 @@ MUTANTS = [
      "edits": [(ID, "        if !ctx.time_control.should_start_new_search(depth) {\n            break;\n        }\n", "")]},
     {"name": "history updated before the child's result is inspected", "expect": "C09-ERR",
      "edits": [(QS, "        let move_score = -quiescence(game, -beta, -alpha, plies + 1, ctx)?;", "        let child = quiescence(game, -beta, -alpha, plies + 1, ctx);\n        ctx.history_table.add_bonus_for(game.player, mv, 1);\n        let move_score = -child?;")]},
+    {"name": "null move taken back before the abort is propagated (seed C09-1)", "expect": "C09-UNDO",
+     "edits": [(NG, "            let null_score = -negamax(\n                game,\n                -beta,\n                -beta + Eval(1),\n                depth - 1 - params::NULL_MOVE_PRUNING_DEPTH_REDUCTION,\n                plies + 1,\n                &mut PrincipalVariation::new(),\n                ctx,\n            )?;\n\n            game.undo_null_move();\n",
+                "            let null_result = negamax(\n                game,\n                -beta,\n                -beta + Eval(1),\n                depth - 1 - params::NULL_MOVE_PRUNING_DEPTH_REDUCTION,\n                plies + 1,\n                &mut PrincipalVariation::new(),\n                ctx,\n            );\n\n            game.undo_null_move();\n\n            let null_score = -null_result?;\n")]},
     {"name": "benign: explicit match instead of ?", "benign": True,
      "edits": [(QS, "        let move_score = -quiescence(game, -beta, -alpha, plies + 1, ctx)?;", "        let move_score = match quiescence(game, -beta, -alpha, plies + 1, ctx) {\n            Ok(v) => -v,\n            Err(()) => return Err(()),\n        };")]},
 ]
